@@ -264,7 +264,7 @@ class _Shard(threading.Thread):
                 break
 
 
-def run_cases(variant, cases, workdir, label="run", nshards=None, case_timeout=20.0, stack_mib=None, extra_env=None):
+def run_cases(variant, cases, workdir, label="run", nshards=None, case_timeout=20.0, stack_mib=None, extra_env=None, confirm_timeouts=True):
     """Runs `cases` (list of dicts) on the driver variant, sharded; returns (results, meta).
 
     results[k] is the driver's record for cases[k], or {"crash":..} / {"timeout":..} when the
@@ -313,7 +313,20 @@ def run_cases(variant, cases, workdir, label="run", nshards=None, case_timeout=2
             r = sh.results.get(local)
             results[k] = r if r is not None else {"missing": True}
         san.extend(sh.results.get("_sanitizer", []))
-    return results, {"sanitizer_reports": san, "launches": launches, "dir": d}
+    slow = [k for k, r in enumerate(results) if isinstance(r, dict) and "timeout" in r]
+    if slow and confirm_timeouts:
+        # a wall-clock timeout on a loaded machine is not a verdict: every timed-out case is run
+        # again alone with a generous limit; only a case that stays silent there is reported as hung
+        again, m2 = run_cases(variant, [cases[k] for k in slow], workdir, label=label + "-confirm", nshards=nshards, case_timeout=min(max(case_timeout * 5, 120.0), 600.0), stack_mib=stack_mib, extra_env=extra_env, confirm_timeouts=False)
+        for k, r in zip(slow, again):
+            if isinstance(r, dict) and "timeout" in r:
+                r["timeout"]["first_after_s"] = case_timeout
+            elif isinstance(r, dict):
+                r["slow_first_attempt_s"] = case_timeout
+            results[k] = r
+        san.extend(m2["sanitizer_reports"])
+        launches += m2["launches"]
+    return results, {"sanitizer_reports": san, "launches": launches, "dir": d, "timeouts_rechecked": len(slow)}
 
 
 def run_single(variant, case, workdir, label="single", case_timeout=300.0, stack_mib=None):
